@@ -41,7 +41,8 @@
       context carrying the bindings [bind]; Proofs/XPathSpellingMain.v).  For every document
       table satisfying [DocInv] (the table is a tree and the order keys of its non-namespace
       nodes are non-zero and increase in document order -- decidable, Model/XDocCheck.v
-      [doc_inv_b]; it fails only for documents with DTD-default attributes, finding D19), every
+      [doc_inv_b]; among the generated documents it fails only for those with DTD-default
+      attributes, finding D19), every
       binding list without a default namespace, every tree [a] without the namespace axis
       ([xnons a]) and ANY two spellings of [a] (parentheses, abbreviated or unabbreviated steps,
       [//] or [/descendant-or-self::node()/], [n] or [position() = n], white space):
@@ -76,19 +77,23 @@
       computation (same context afterwards, too).  So the hypotheses [DocInv] and [xnons] of
       [spelling_irrelevant_partial] serve the equivalence [//] = [/descendant-or-self::node()/] only.
 
-    WHAT THE EVALUATION HALF DOES NOT SAY (the full statement above is FALSE for the model, hence
-    for the code, in these respects; [spelling_irrelevant_partial] is the strongest statement
-    that holds):
-    - when both spellings fail they may fail with DIFFERENT errors: [//x/y] runs the whole
-      relative path from one start node after the other, [/descendant-or-self::node()/x/y] runs
-      step [x] from all of them before step [y], so a failing predicate of [y] and a failing
-      predicate of [x] are met in different orders (both are errors, only the message differs);
-    - a default-namespace binding in the context ([Context::add_ns(None, ..)]) makes every
-      unprefixed function name unknown, so [a[position() = 1]] is an error where [a[1]] is not:
-      excluded by [ns_lookup bind None = None];
-    - the namespace axis and documents with DTD-default attributes (order key 0: finding D19)
-      are excluded because nodes with key 0 are exempt from the de-duplication after a step but
-      not from the final one.
+    WHAT THE EVALUATION HALF DOES NOT SAY.  The full statement above is FALSE for the model, and for
+    the code (both witnesses were run on the real [query] with work/xp/q.py), in two respects:
+    - [error_order_refuted]: when both spellings fail they may fail with DIFFERENT errors: [//x/y]
+      runs the whole relative path from one start node after the other,
+      [/descendant-or-self::node()/x/y] runs step [x] from all of them before step [y], so a failing
+      predicate of [y] and a failing predicate of [x] are met in different orders (both results are
+      errors, only the error differs).  This is why [spelling_irrelevant_partial] speaks of values;
+    - [default_namespace_refuted]: a default-namespace binding in the context
+      ([Context::add_ns(None, ..)], an extension: XPath 1.0 has no default namespace in the
+      expression context) makes every unprefixed function name unknown, so [/*/*[position() = 1]] is
+      the error NotFoundFunction(position) where [/*/*[1]] has a value: hypothesis
+      [ns_lookup bind None = None] (C05 has the same one).
+    Excluded WITHOUT a known counterexample (for [//] only; [spelling_irrelevant_light] covers them
+    for all the other equivalences): the namespace axis and documents with DTD-default attributes
+    (order key 0: finding D19) -- nodes with key 0 are exempt from the de-duplication after a step
+    but not from the final one, which keeps the first of them, so the proof would have to follow
+    the ORDER of the collected lists, not only their elements.
     The failing-input search of checks/C08.py still evaluates every generated spelling pair on
     the real [query]. *)
 From Coq Require Import List NArith Arith Bool.
@@ -250,6 +255,15 @@ Corollary spelling_irrelevant_fails : forall doc bind a sp1 sp2,
    (forall v, XPathSpellingMain.query_model doc bind (spell a sp2) <> XPathSpellingMain.QValue v)).
 Proof. exact XPathSpellingMain.spelling_irrelevant_fails_proof. Qed.
 
+(** the same for an arbitrary context (not only a fresh one), with the context that is left *)
+Corollary spelling_irrelevant_context_partial : forall doc a sp1 sp2 e1 e2 c,
+  ok_spelling a sp1 -> ok_spelling a sp2 ->
+  no_fname_case (surface sp1) = true -> no_fname_case (surface sp2) = true ->
+  parse_expr (spell a sp1) = POk e1 [] -> parse_expr (spell a sp2) = POk e2 [] ->
+  XPathCanon.DocInv doc -> XPathEval.ns_lookup (XPathEval.c_ns c) None = None -> XPathAbsInv.xnons a = true ->
+  forall v c', XPathEval.query doc e1 c = (XDoc.Ok v, c') <-> XPathEval.query doc e2 c = (XDoc.Ok v, c').
+Proof. exact XPathSpellingMain.spelling_irrelevant_context_proof. Qed.
+
 (** white space between tokens never matters: equal results, no hypothesis on document, bindings or axes *)
 Theorem white_space_irrelevant : forall doc bind (a : xexpr) (w1 w2 : wtree),
   wfb a = true -> no_fname_case a = true -> ws_ok w1 = true -> ws_ok w2 = true ->
@@ -265,6 +279,15 @@ Theorem spelling_irrelevant_light : forall doc bind a sp1 sp2,
   XPathEval.ns_lookup bind None = None ->
   XPathSpellingMain.query_model doc bind (spell a sp1) = XPathSpellingMain.query_model doc bind (spell a sp2).
 Proof. exact XPathSpellingMain.spelling_irrelevant_light_proof. Qed.
+
+Corollary spelling_irrelevant_light_context : forall doc a sp1 sp2 e1 e2 c,
+  ok_spelling a sp1 -> ok_spelling a sp2 ->
+  no_fname_case (surface sp1) = true -> no_fname_case (surface sp2) = true ->
+  parse_expr (spell a sp1) = POk e1 [] -> parse_expr (spell a sp2) = POk e2 [] ->
+  XPathSpellingLight.lnorm (surface sp1) = XPathSpellingLight.lnorm (surface sp2) ->
+  XPathEval.ns_lookup (XPathEval.c_ns c) None = None ->
+  XPathEval.query doc e1 c = XPathEval.query doc e2 c.
+Proof. exact XPathSpellingMain.spelling_irrelevant_light_context_proof. Qed.
 
 Corollary lnorm_equiv : forall a b, XPathSpellingLight.lnorm a = XPathSpellingLight.lnorm b -> a ≈ b.
 Proof. exact XPathSpellingLight.lnorm_equiv. Qed.
@@ -295,8 +318,8 @@ Check XPathSpellingExamples.ex_spell2_differs : spell XPathSpellingExamples.ex_s
 Check XPathSpellingExamples.ex_light_hypotheses.
 Check XPathSpellingExamples.ex_light_same.
 Check XPathSpellingExamples.ex_value2 :
-  XPathSpellingMain.query_model XPathExamples.ex_doc [] (spell XPathSpellingExamples.ex_short XPathSpellingExamples.ex_sp2)
-  = XPathSpellingMain.QValue (XPathEval.XNodes [1%N]).
+  XPathSpellingMain.query_model XPathSpellingExamples.c08_doc [] (spell XPathSpellingExamples.ex_short XPathSpellingExamples.ex_sp2)
+  = XPathSpellingMain.QValue (XPathEval.XNodes [3%N]).
 
 Print Assumptions xpath_parse_terminates.
 Print Assumptions parse_expr_total.
@@ -323,5 +346,7 @@ Print Assumptions spelling_irrelevant_fails.
 Print Assumptions white_space_irrelevant.
 Print Assumptions spelling_irrelevant_light.
 Print Assumptions lnorm_equiv.
+Print Assumptions spelling_irrelevant_context_partial.
+Print Assumptions spelling_irrelevant_light_context.
 Print Assumptions error_order_refuted.
 Print Assumptions default_namespace_refuted.
